@@ -445,4 +445,242 @@ theorem syncR2_spec {x : Pair} (hinv : PairInv2 x) (hok : RollOk x) (now na : In
   exact ⟨fun _ => hnone, fun rc h => (by rw [hnone] at h; cases h), fun rc h => (by rw [hnone] at h; cases h),
     fun rc R h => (by rw [hnone] at h; cases h), fun rc k h => (by rw [hnone] at h; cases h)⟩
 
+/-! ## The coupling invariant with a key roll in progress -/
+
+theorem hasPending_finished_nil {ks : KeyState} (h : ks.finished.certRequests = []) : ks.finished.hasPending = false := by
+  cases ks <;> simp_all [KeyState.finished, KeyState.hasPending, KeyState.revokeRequest]
+
+/-- After its requests were answered a class has nothing left to send. -/
+theorem syncStep_clears {ks : KeyState} (hwf : ks.wf = true) (hp : ks.hasPending = true) (o : Offer) (now : Int) :
+    (ks.syncStep o now).hasPending = false := by
+  cases ks with
+  | pending p =>
+    obtain ⟨pid, preq⟩ := p
+    cases preq
+    · simp [KeyState.hasPending, KeyState.certRequests, KeyState.revokeRequest] at hp
+    · simp [KeyState.syncStep, KeyState.hasPending, KeyState.certRequests, KeyState.revokeRequest,
+        KeyState.receive, KeyState.route, KeyState.applyPendingToActive, CertKey.create]
+  | active c =>
+    obtain ⟨cid, ccert, creq⟩ := c
+    cases creq
+    · simp [KeyState.hasPending, KeyState.certRequests, KeyState.revokeRequest] at hp
+    · simp [KeyState.syncStep, KeyState.hasPending, KeyState.certRequests, KeyState.revokeRequest,
+        KeyState.receive, KeyState.route, KeyState.applyReceived, CertKey.setIncoming]
+  | rollPending p c =>
+    obtain ⟨pid, preq⟩ := p
+    obtain ⟨cid, ccert, creq⟩ := c
+    have hne : pid ≠ cid := by simpa [KeyState.wf] using hwf
+    have hne' : cid ≠ pid := fun h => hne h.symm
+    cases preq <;> cases creq
+    · simp [KeyState.hasPending, KeyState.certRequests, KeyState.revokeRequest] at hp
+    · simp [KeyState.syncStep, KeyState.hasPending, KeyState.certRequests, KeyState.revokeRequest,
+        KeyState.receive, KeyState.route, KeyState.applyReceived, CertKey.setIncoming, hne, hne']
+    · simp [KeyState.syncStep, KeyState.hasPending, KeyState.certRequests, KeyState.revokeRequest,
+        KeyState.receive, KeyState.route, KeyState.applyPendingToNew, CertKey.create]
+    · simp [KeyState.syncStep, KeyState.hasPending, KeyState.certRequests, KeyState.revokeRequest,
+        KeyState.receive, KeyState.route, KeyState.applyPendingToNew, KeyState.applyReceived,
+        CertKey.create, CertKey.setIncoming, hne, hne']
+  | rollNew n c =>
+    obtain ⟨nid, ncert, nreq⟩ := n
+    obtain ⟨cid, ccert, creq⟩ := c
+    have hne : nid ≠ cid := by simpa [KeyState.wf] using hwf
+    have hne' : cid ≠ nid := fun h => hne h.symm
+    cases nreq <;> cases creq
+    · simp [KeyState.hasPending, KeyState.certRequests, KeyState.revokeRequest] at hp
+    · simp [KeyState.syncStep, KeyState.hasPending, KeyState.certRequests, KeyState.revokeRequest,
+        KeyState.receive, KeyState.route, KeyState.applyReceived, CertKey.setIncoming, hne, hne']
+    · simp [KeyState.syncStep, KeyState.hasPending, KeyState.certRequests, KeyState.revokeRequest,
+        KeyState.receive, KeyState.route, KeyState.applyReceived, CertKey.setIncoming, hne, hne']
+    · simp [KeyState.syncStep, KeyState.hasPending, KeyState.certRequests, KeyState.revokeRequest,
+        KeyState.receive, KeyState.route, KeyState.applyReceived, CertKey.setIncoming, hne, hne']
+  | rollOld c od =>
+    obtain ⟨cid, ccert, creq⟩ := c
+    simp only [KeyState.wf, Bool.and_eq_true, Bool.not_eq_true', decide_eq_true_eq] at hwf
+    cases creq
+    · simp [KeyState.syncStep, KeyState.hasPending, KeyState.certRequests, KeyState.revokeRequest]
+    · simp [KeyState.syncStep, KeyState.hasPending, KeyState.certRequests, KeyState.revokeRequest,
+        KeyState.receive, KeyState.route, KeyState.applyReceived, CertKey.setIncoming]
+
+theorem leaving_finished (ks : KeyState) : ∀ k ∈ ks.finished.leaving, k ∈ ks.leaving ∧ k ∉ ks.revoked := by
+  cases ks <;> simp [KeyState.finished, KeyState.leaving, KeyState.revoked]
+
+theorem staying_finished (ks : KeyState) : ks.finished.staying = ks.staying := by
+  cases ks <;> rfl
+
+theorem not_pending_revoked {ks : KeyState} (h : ks.hasPending = false) : ks.revoked = [] := by
+  cases ks <;> simp_all [KeyState.hasPending, KeyState.revokeRequest, KeyState.revoked]
+
+
+/-- The certificate of a staying key that holds what the parent would answer is on file at the
+parent with those resources. -/
+def Booked2 (x : Pair) : Prop :=
+  ∀ r rc k R, get x.child.ca.classes r = some rc → rc.parent = x.ph → k ∈ rc.keys.staying →
+    x.parent.ca.answer x.ch rc.parentRcn = some R → seteq k.cert.res R = true →
+    ∃ cc, x.parent.ca.issuedFor x.ch rc.parentRcn k.id = some cc ∧ seteq cc.res R = true
+
+/-- What the exchange needs and keeps, key rolls included. -/
+structure Coupled2 (x : Pair) : Prop where
+  inv : PairInv2 x
+  names : x.parent.ca.namesOk x.ch = true
+  uniq : UniqueNames x.child.ca x.ph
+  ok : RollOk x
+  booked : Booked2 x
+
+/-- Where a class after the request branch comes from. -/
+theorem Answered2.origin {x z : Pair} {na now : Int} {r : Rcn} (h : Answered2 x z na now r) {rc' : Rc}
+    (hg : get z.child.ca.classes r = some rc') :
+    ∃ rc, get x.child.ca.classes r = some rc ∧ rc'.parent = rc.parent ∧ rc'.parentRcn = rc.parentRcn ∧
+      ((rc' = rc ∧ ¬ (rc.parent = x.ph ∧ rc.keys.hasPending = true)) ∨
+       (rc.parent = x.ph ∧ rc.keys.hasPending = true ∧ x.parent.ca.answer x.ch rc.parentRcn = none ∧
+          rc'.keys = rc.keys.finished ∧ rc.keys.finished.certRequests = []) ∨
+       (rc.parent = x.ph ∧ rc.keys.hasPending = true ∧ ∃ R, x.parent.ca.answer x.ch rc.parentRcn = some R ∧
+          rc'.keys = rc.keys.syncStep ⟨R, na⟩ now ∧
+          ∀ ki ∈ rc.keys.finished.certRequests, ∃ c, get z.parent.ca.children x.ch = some c ∧
+            z.parent.ca.bookedExact x.ch (c.nameInParent rc.parentRcn) ki)) := by
+  cases hx : get x.child.ca.classes r with
+  | none => rw [h.absent hx] at hg; cases hg
+  | some rc =>
+    refine ⟨rc, rfl, ?_⟩
+    by_cases hq : rc.parent = x.ph ∧ rc.keys.hasPending = true
+    · cases ha : x.parent.ca.answer x.ch rc.parentRcn with
+      | none =>
+        rcases h.refused rc hx hq.1 hq.2 ha with h1 | ⟨rc'', a1, a2, a3, a4, a5⟩
+        · rw [h1] at hg; cases hg
+        · rw [a1] at hg; cases hg
+          exact ⟨a2, a3, Or.inr (Or.inl ⟨hq.1, hq.2, rfl, a4, a5⟩)⟩
+      | some R =>
+        obtain ⟨rc'', a1, a2, a3, a4, a5⟩ := h.answered rc R hx hq.1 hq.2 ha
+        rw [a1] at hg; cases hg
+        exact ⟨a2, a3, Or.inr (Or.inr ⟨hq.1, hq.2, R, rfl, a4, a5⟩)⟩
+    · rw [h.quiet rc hx hq] at hg; cases hg
+      exact ⟨rfl, rfl, Or.inl ⟨rfl, hq⟩⟩
+
+/-- A class of `x` that the parent answers is still there, under its names. -/
+theorem Answered2.survives {x z : Pair} {na now : Int} {r : Rcn} (h : Answered2 x z na now r) {rc : Rc}
+    (hg : get x.child.ca.classes r = some rc)
+    (hans : rc.parent = x.ph → rc.keys.hasPending = true → ∃ R, x.parent.ca.answer x.ch rc.parentRcn = some R) :
+    ∃ rc', get z.child.ca.classes r = some rc' ∧ rc'.parent = rc.parent ∧ rc'.parentRcn = rc.parentRcn := by
+  by_cases hq : rc.parent = x.ph ∧ rc.keys.hasPending = true
+  · obtain ⟨R, hR⟩ := hans hq.1 hq.2
+    obtain ⟨rc', a1, a2, a3, _⟩ := h.answered rc R hg hq.1 hq.2 hR
+    exact ⟨rc', a1, a2, a3⟩
+  · exact ⟨rc, h.quiet rc hg hq, rfl, rfl⟩
+
+/-- After the request branch nothing is left to send. -/
+theorem ReqRun2.quiet {x z : Pair} {na now : Int} (hok : RollOk x) (h : ReqRun2 x z na now) :
+    z.child.ca.hasPendingRequests z.ph = false := by
+  rw [hasPendingRequests_false_iff (reachable_inv h.inv.base.rc).core.nodup]
+  intro r rc' hg hp
+  obtain ⟨rc, hx, a1, _, a3⟩ := (h.cls r).origin hg
+  rw [h.ph] at hp
+  have hpx : rc.parent = x.ph := a1.symm.trans hp
+  rcases a3 with ⟨heq, hnot⟩ | ⟨_, _, _, hk, hnil⟩ | ⟨_, hpend, R, _, hk, _⟩
+  · subst heq
+    cases hpend : rc'.keys.hasPending with
+    | false => rfl
+    | true => exact absurd ⟨hp, hpend⟩ hnot
+  · rw [hk]; exact hasPending_finished_nil hnil
+  · rw [hk]; exact syncStep_clears (hok.wf r rc hx hpx) hpend _ _
+
+/-- The request branch keeps the coupling. -/
+theorem ReqRun2.coupled {x z : Pair} {na now : Int} (hc : Coupled2 x) (h : ReqRun2 x z na now) : Coupled2 z := by
+  refine ⟨h.inv, ?_, ?_, ⟨?_, ?_, ?_⟩, ?_⟩
+  · rw [h.ch]; exact h.same.namesOk hc.names
+  · intro r1 r2 rc1 rc2 hg1 hg2 hp1 hp2 hname
+    obtain ⟨rc1', hx1, a1, a2, _⟩ := (h.cls r1).origin hg1
+    obtain ⟨rc2', hx2, b1, b2, _⟩ := (h.cls r2).origin hg2
+    rw [h.ph] at hp1 hp2
+    exact hc.uniq r1 r2 rc1' rc2' hx1 hx2 (a1.symm.trans hp1) (b1.symm.trans hp2) (a2.symm.trans (hname.trans b2))
+  · -- well-formed key states
+    intro r rc' hg hp
+    obtain ⟨rc, hx, a1, _, a3⟩ := (h.cls r).origin hg
+    rw [h.ph] at hp
+    have hwf := hc.ok.wf r rc hx (a1.symm.trans hp)
+    rcases a3 with ⟨heq, _⟩ | ⟨_, _, _, hk, _⟩ | ⟨_, _, R, _, hk, _⟩
+    · rw [heq]; exact hwf
+    · rw [hk]; exact wf_finished hwf
+    · rw [hk]; exact wf_syncStep hwf _ _
+  · -- keys of different classes stay different
+    intro r1 r2 rc1 rc2 k hg1 hg2 hp1 hp2 hk1 hk2
+    obtain ⟨rc1', hx1, a1, _, a3⟩ := (h.cls r1).origin hg1
+    obtain ⟨rc2', hx2, b1, _, b3⟩ := (h.cls r2).origin hg2
+    rw [h.ph] at hp1 hp2
+    have hsub : ∀ {rc rc' : Rc}, ((rc' = rc ∧ ¬ (rc.parent = x.ph ∧ rc.keys.hasPending = true)) ∨
+        (rc.parent = x.ph ∧ rc.keys.hasPending = true ∧ x.parent.ca.answer x.ch rc.parentRcn = none ∧
+          rc'.keys = rc.keys.finished ∧ rc.keys.finished.certRequests = []) ∨
+        (rc.parent = x.ph ∧ rc.keys.hasPending = true ∧ ∃ R, x.parent.ca.answer x.ch rc.parentRcn = some R ∧
+          rc'.keys = rc.keys.syncStep ⟨R, na⟩ now ∧
+          ∀ ki ∈ rc.keys.finished.certRequests, ∃ c, get z.parent.ca.children x.ch = some c ∧
+            z.parent.ca.bookedExact x.ch (c.nameInParent rc.parentRcn) ki)) →
+        ∀ k ∈ rc'.keys.keyIds, k ∈ rc.keys.keyIds := by
+      intro rc rc' h3 k hk
+      rcases h3 with ⟨heq, _⟩ | ⟨_, _, _, hk', _⟩ | ⟨_, _, R, _, hk', _⟩
+      · rw [heq] at hk; exact hk
+      · rw [hk'] at hk; exact keyIds_finished_sub _ k hk
+      · rw [hk'] at hk; exact keyIds_syncStep _ _ _ k hk
+    exact hc.ok.distinct r1 r2 rc1' rc2' k hx1 hx2 (a1.symm.trans hp1) (b1.symm.trans hp2)
+      (hsub a3 k hk1) (hsub b3 k hk2)
+  · -- the keys about to be revoked are in use
+    intro r rc' hg hp k hk
+    obtain ⟨rc, hx, a1, a2, a3⟩ := (h.cls r).origin hg
+    rw [h.ph] at hp
+    have hpx : rc.parent = x.ph := a1.symm.trans hp
+    have hwf := hc.ok.wf r rc hx hpx
+    rw [h.ch, a2]
+    have hkey : k ∈ rc.keys.leaving ∧ k ∉ rc.keys.revoked := by
+      rcases a3 with ⟨heq, hnot⟩ | ⟨_, _, _, hk', _⟩ | ⟨_, _, R, _, hk', _⟩
+      · rw [heq] at hk
+        refine ⟨hk, ?_⟩
+        have hnp : rc.keys.hasPending = false := by
+          cases hpend : rc.keys.hasPending with
+          | false => rfl
+          | true => exact absurd ⟨hpx, hpend⟩ hnot
+        rw [not_pending_revoked hnp]; exact List.not_mem_nil
+      · rw [hk'] at hk; exact leaving_finished _ k hk
+      · rw [hk'] at hk; exact leaving_syncStep hwf _ _ k hk
+    exact (h.cls r).inuse rc k hx hpx (leaving_sub_keyIds _ k hkey.1) (hc.ok.leaving r rc hx hpx k hkey.1) hkey.2
+  · -- certificates on file
+    intro r rc' k R hg hp hk ha hse
+    rw [h.ch] at ha ⊢
+    rw [h.ph] at hp
+    have ha' : x.parent.ca.answer x.ch rc'.parentRcn = some R := (h.same.answer _).symm.trans ha
+    obtain ⟨rc, hx, a1, a2, a3⟩ := (h.cls r).origin hg
+    have hpx : rc.parent = x.ph := a1.symm.trans hp
+    have hwf := hc.ok.wf r rc hx hpx
+    rcases h.same.child_cases with ⟨e1, _⟩ | ⟨c0, c', e1, e2, _, e4⟩
+    · unfold Ca.answer at ha'; rw [e1] at ha'; cases ha'
+    · -- a staying key as it was in `x`
+      have hold : k ∈ rc.keys.staying → ∃ cc, z.parent.ca.issuedFor x.ch rc'.parentRcn k.id = some cc ∧
+          seteq cc.res R = true := by
+        intro hks
+        obtain ⟨cc, hcc, hres⟩ := hc.booked r rc k R hx hpx hks (by rw [← a2]; exact ha') hse
+        rcases h.book (c0.nameInParent rc'.parentRcn) k.id with hsame | hex | ⟨r2, rc2, hx2, hp2, hrev⟩
+        · refine ⟨cc, ?_, hres⟩
+          rw [issuedFor_eq, e2]; simp only
+          rw [nameInParent_congr e4, hsame, a2]
+          rw [issuedFor_eq, e1] at hcc; exact hcc
+        · have hex' : z.parent.ca.bookedExact x.ch (c'.nameInParent rc'.parentRcn) k.id := by
+            rw [nameInParent_congr e4]; exact hex
+          obtain ⟨cc', h1, h2⟩ := bookedExact_issuedFor e2 hex' ha
+          exact ⟨cc', h1, by rw [h2]; exact seteq_refl _⟩
+        · -- revoked keys are not staying keys
+          exfalso
+          have hrr : r2 = r := hc.ok.distinct r2 r rc2 rc k.id hx2 hx hp2 hpx (revoked_sub_keyIds _ _ hrev)
+            (staying_sub_keyIds _ k hks)
+          subst hrr
+          rw [hx] at hx2; cases hx2
+          exact staying_not_revoked hwf k hks hrev
+      rcases a3 with ⟨heq, _⟩ | ⟨_, _, hnone, _, _⟩ | ⟨_, hpend, R', hR', hk', hb⟩
+      · rw [heq] at hk; exact hold hk
+      · rw [← a2, ha'] at hnone; cases hnone
+      · rw [← a2, ha'] at hR'; cases hR'
+        rw [hk'] at hk
+        rcases staying_syncStep hwf hpend _ _ k hk with hrecv | hks
+        · obtain ⟨c, hcz, hbz⟩ := hb k.id hrecv
+          rw [e2] at hcz; cases hcz
+          rw [← a2] at hbz
+          obtain ⟨cc', h1, h2⟩ := bookedExact_issuedFor e2 hbz ha
+          exact ⟨cc', h1, by rw [h2]; exact seteq_refl _⟩
+        · exact hold hks
+
 end KM.CaK
